@@ -297,10 +297,28 @@ BAD_OPERATIONS = {
 }
 
 
+def _shared_target(doc: dict) -> str | None:
+    """An object component that some other component references (so a bad model can 'share' it with healthy ones)."""
+    comps = (doc.get("components") or {}).get("schemas") or {}
+    text = {n: json.dumps(s) for n, s in comps.items()}
+    for n, s in comps.items():
+        if isinstance(s, dict) and s.get("type") == "object" and "allOf" not in s:
+            if any(f'"#/components/schemas/{n}"' in t for m, t in text.items() if m != n):
+                return n
+    return None
+
+
 def _with_bad(doc: dict, kind: str, position: int, dependant: bool) -> dict:
     d = copy.deepcopy(doc)
     comps = d.setdefault("components", {}).setdefault("schemas", {})
-    if kind in BAD_SCHEMAS:
+    if kind == "shares_ref_then_bad":
+        tgt = _shared_target(doc)
+        items = list(comps.items())
+        props = {"a-first": {"$ref": f"#/components/schemas/{tgt}"}, "z-bad": {"type": "array"}} if tgt else {"z-bad": {"type": "array"}}
+        new = [("ZzBadPiece", {"type": "object", "properties": props})]
+        pos = position % (len(items) + 1)
+        d["components"]["schemas"] = dict(items[:pos] + new + items[pos:])
+    elif kind in BAD_SCHEMAS:
         items = list(comps.items())
         new = [("ZzBadLeafEnum", {"type": "string", "enum": ["zz"]})] if kind == "allof_non_object" else []
         new.append(("ZzBadPiece", copy.deepcopy(BAD_SCHEMAS[kind])))
@@ -354,13 +372,15 @@ def bad_pieces(tier: str = "quick", known: list | None = None, **_: Any) -> dict
     names = sorted(docs)
     if tier == "quick":
         names = [n for n in names if n.split(":")[1] in ("nested", "allof", "params", "responses")]
-    kinds = list(BAD_SCHEMAS) + list(BAD_OPERATIONS)
+    kinds = list(BAD_SCHEMAS) + list(BAD_OPERATIONS) + ["shares_ref_then_bad"]
     wit, n = [], 0
     for name in names:
         for kind in kinds:
-            positions = [0, 1, 99] if tier == "thorough" else [rnd.randint(0, 5)]
+            positions = [0, 1, 99] if tier == "thorough" else ([0, rnd.randint(1, 5)] if kind == "shares_ref_then_bad" else [rnd.randint(0, 5)])
             for pos in positions:
                 for dep in ((False, True) if kind in BAD_SCHEMAS else (False,)):
+                    if kind == "shares_ref_then_bad" and not name.startswith("model:"):
+                        continue
                     n += 1
                     probs = bad_piece_one(docs[name], kind, pos, dep)
                     if probs:
